@@ -65,6 +65,16 @@ for _pid, _fam in _MTP.items():
         CHECKS[_pid]['assumptions'] = list(CHECKS[_pid].get('assumptions', [])) + [
             'supplement: 4 threads with private ' + _fam + ' objects under ThreadSanitizer (independent objects must not share hidden state)']
 
+# Layout supplement (harness/layout.c): elements whose node sits 64 KiB .. 16 MiB into a large record; the caller's part of every
+# element is compared with a shadow copy after every library call and rewritten by the owner between calls.
+_LAY = {'C01': 'trees', 'C02': 'trees', 'C03': 'hash', 'C07': 'heap', 'C12': 'dlist', 'C13': 'slist'}
+for _pid, _fam in _LAY.items():
+    if _pid in CHECKS:
+        CHECKS[_pid]['runs'] = list(CHECKS[_pid]['runs']) + [
+            {'harness': 'layout', 'mode': _fam, 'sources': ['harness/layout.c'], 'configs': both(['dbg-asan', 'rel-asan']), 'workers': 16}]
+        CHECKS[_pid]['assumptions'] = list(CHECKS[_pid].get('assumptions', [])) + [
+            'supplement: ' + _fam + ' elements with the node at offsets past 2^16, 2^17, 2^20 and 2^24; the library may write nothing of an element but its node (shadow copy compared after every call, payload rewritten by the owner between calls)']
+
 # Caller-side supplement (harness/reread.c): accessors are read, the object is changed through the API and the
 # same accessors are read again inside ONE optimised caller function; a function attribute or an inline body in
 # a public header that lets the client's compiler keep a stale value (e.g. __attribute__((const)) on a getter)
